@@ -127,7 +127,14 @@ func (e *Engine) specFor(f *ssa.Function) *FuncSpec {
 	}
 	rel := strings.TrimPrefix(pkgPath, repoModule+"/")
 	short := strings.TrimPrefix(key, rel+".")
-	return e.specs.Funcs[pkgPath+":"+short]
+	if sp, ok := e.specs.Funcs[pkgPath+":"+short]; ok {
+		return sp
+	}
+	// instantiated generic: "Cache.Get[pkg.T]" -> "Cache.Get"
+	if i := strings.Index(short, "["); i >= 0 {
+		return e.specs.Funcs[pkgPath+":"+short[:i]]
+	}
+	return nil
 }
 
 // ifaceSpec: contract for an interface method call, keyed "<IfaceName>.<Method>" in the interface's package.
